@@ -5,7 +5,10 @@ by' / other error, per posting the exact amount (the assigned amounts in particu
 Oracle (property text, Fractions): an independent fold over the history in file order decides every
 assertion (exact account, real postings only for an assertion on a real posting, all postings for one
 on a virtual posting, dates ignored, lots stripped, bare 0 = every commodity zero) and computes every
-assigned amount; --permissive never fails an assertion."""
+assigned amount; --permissive never fails an assertion.  A <deferred> posting counts within its own transaction only,
+until the file of its -f option has ended; inside `apply account` blocks the fold is over the qualified accounts; a cost
+plays no part (the amount is counted); a bare `= 0` assignment receives minus the account's one commodity, nothing when
+it holds none, and is an error when it holds several."""
 import re
 from fractions import Fraction as F
 import lib
@@ -15,8 +18,8 @@ META = dict(
     id='C09',
     level='proof',
     technique='Coq proof about the model of the `= AMOUNT` clause (assertion accepted iff running balance + posting - asserted amount displays as zero in the asserted commodity; assignment receives exactly asserted - running; permissive skips; dates play no role by construction) + differential correspondence against ledger',
-    level_text='Theorems in coq/Properties/Properties_C09.v are stated for resolve_assigned/run_journal_a, a transcription of parse_post\'s balance assertion/assignment code over the account totals (a fold over the postings that reached the account, in file order). The tie to the code is the comparison of whole generated histories (1-40 transactions, assertions and assignments on arbitrary postings, shuffled dates, virtual/real mix, lots, --permissive) between ledger and the extracted model: acceptance, error class and the exact amount of every posting.',
-    level_note='Trusted as C01. The lazy last_post/CONSIDERED walk of account_t::amount is modelled as the plain sum it computes (validated by the correspondence). Assertions with value expressions, and assertions following an elided posting to the same account (an error in ledger: the running balance is undefined), are outside the generators.',
+    level_text='Theorems in coq/Properties/Properties_C09.v are stated for resolve_assigned/run_journal_a, a transcription of parse_post\'s balance assertion/assignment code over the account totals (a fold over the postings that reached the account, in file order). The tie to the code is the comparison of whole generated histories (1-40 transactions, assertions and assignments on arbitrary postings, shuffled dates, virtual/real mix, lots, costs, <deferred> postings with the end of the first -f file, apply account blocks, bare `= 0` clauses, --permissive) between ledger and the extracted model (run_journal_d): acceptance, error class and the exact amount of every posting.',
+    level_note='Trusted as C01. The lazy last_post/CONSIDERED walk of account_t::amount is modelled as the plain sum it computes (validated by the correspondence). Account aliases, a transaction read twice under one UUID (its deferred postings are released early), assertions with value expressions, and assertions following an elided posting to the same account (an error in ledger: the running balance is undefined), are outside the generators.',
     design_ref='DESIGN.md section 7 C09',
     assumptions=['every commodity is taught its display precision by a first transaction, and all amounts are written with that many decimals',
                  'accounts are plain names; virtual accounts use the same names in (parentheses)'],
@@ -39,7 +42,12 @@ class WPost(X.Post):
         self.assigned = assigned
 
     def text(self):
-        t = super().text()
+        if self.kind == 'D':            # <Account>: a deferred posting (real while its transaction is read)
+            self.kind = 'R'
+            t = super().text().replace(self.acct, '<%s>' % self.acct, 1)
+            self.kind = 'D'
+        else:
+            t = super().text()
         if self.assigned is not None:
             t += ('    = ' if self.amt is None else ' = ') + self.assigned.text()
         return t
@@ -57,6 +65,11 @@ class Running:
     """the oracle's state: per account, the postings that reached it, in file order"""
     def __init__(self):
         self.hist = []         # (acct, virtual, sym, value)
+        self.held = []         # the same of deferred postings <Account>: they reach the account at the end of the -f file
+
+    def end_of_file(self):
+        self.hist.extend(self.held)
+        self.held = []
 
     def balance(self, acct, count_virtual, extra=()):
         tot = {}
@@ -66,12 +79,39 @@ class Running:
         return tot
 
 
-def gen_history(rng, auto=False):
-    """-> (xacts, expected) where expected[i] = 'ok' | 'assert' and per posting assigned values
+class AXact(X.Xact):
+    """a transaction written inside `apply account N1` .. `apply account Nk`: its postings carry the names as written"""
+    stack = ()
+
+    def text(self, i):
+        t = super().text(i)
+        if not self.stack:
+            return t
+        return ''.join('apply account %s\n' % n for n in self.stack) + '\n' + t + '\n' + 'end apply account\n' * len(self.stack)
+
+    def sx(self):
+        if not self.stack:
+            return super().sx()
+        return ['xact-in', [n.encode() for n in self.stack]] + [p.sx() for p in self.posts]
+
+
+def virt(kind):
+    return kind in ('V', 'B')
+
+
+def gen_history(rng, auto=False, deferred=False, stack=()):
+    """-> (xacts, expected, eof) where expected[i] = 'ok' | 'assert' | 'multi' and per posting assigned values
+    deferred: some postings are written <Account>; eof = the index of the transaction in front of which the file of the
+    first -f option ends (what the accounts held back counts from there on), or None: one -f file
+    stack: some transactions are written inside `apply account` blocks of these names (outermost first); the oracle
+    folds over the accounts the postings then belong to (N1:..:Nk:written name)
     auto: the journal starts with the rule AUTO_TEXT; postings to AUTO_SRC make it add a pair of [balanced virtual]
     postings, and the assertions and assignments are (also) made on the two accounts those reach"""
     syms = rng.sample(list(DEC), rng.choice([1, 2, 3]))
     accts = rng.sample(ACCTS, rng.randrange(1, 5)) + ['Equity:Open']
+    if stack:
+        # accounts that a block reaches by a short name, and accounts whose name means another account inside it
+        accts = ['Assets:Bank', 'Assets:Bank:Sub'] + rng.sample(ACCTS[2:], rng.randrange(1, 3)) + ['Equity:Open']
     if auto:
         accts = rng.sample(ACCTS, rng.randrange(0, 3)) + [AUTO_BUDGET, AUTO_POOL][:rng.choice([1, 2, 2])] + ['Equity:Open']
     # the first `warm` transactions leave the two accounts to the rule alone: what they hold when the first written
@@ -84,8 +124,18 @@ def gen_history(rng, auto=False):
     xs.append(teach)
     exp.append(dict(kind='ok', assigned={}))
     n = rng.randrange(1, 41)
+    eof = rng.randrange(2, n + 2) if deferred and n > 1 and rng.random() < 0.6 else None
     for k in range(n):
+        if eof is not None and len(xs) == eof:
+            run.end_of_file()
         posts = []
+        pre = ':'.join(stack) if stack and rng.random() < 0.45 else ''
+
+        def names(acct):
+            """(the account the posting belongs to, the name to write)"""
+            if not pre:
+                return acct, acct
+            return (acct, acct[len(pre) + 1:]) if acct.startswith(pre + ':') else (pre + ':' + acct, acct)
         extra = []                     # postings of this transaction so far
         verdict = 'ok'
         assigned = {}
@@ -93,29 +143,49 @@ def gen_history(rng, auto=False):
             acct = rng.choice(plain if k < warm else accts[:-1])
             if auto and k == warm and j == 0:
                 acct = rng.choice([a for a in accts[:-1] if a in (AUTO_BUDGET, AUTO_POOL)])
+            acct, written = names(acct)
             kr = rng.random()
             kind = 'V' if kr < 0.17 else 'B' if kr < 0.27 else 'R'      # (virtual), [balanced virtual], real
+            if deferred and 0.27 <= kr < 0.55:
+                kind = 'D'                                              # <deferred>: real, but held back by the account
             sym = rng.choice(syms)
             r = rng.random()
             lot = None
-            if r < 0.25:
+            if r < 0.25 and rng.random() < 0.2:
+                # bare assignment `= 0`: every commodity of the account is meant; one amount must complete them all
+                bal = dict((s, v) for s, v in run.balance(acct, virt(kind), extra).items() if v != 0)
+                p = WPost(written, kind, None, None, None, X.Amt(F(0), 0, None))
+                if len(bal) > 1:
+                    verdict = 'multi'
+                else:
+                    s1, v1 = list(bal.items())[0] if bal else (None, F(0))
+                    assigned[len(posts)] = (s1, -v1)
+                    if s1 is not None:
+                        extra.append((acct, virt(kind), s1, -v1, kind != 'V', kind == 'D', (s1, -v1)))
+            elif r < 0.25:
                 # assignment: amount-less posting with = X
                 target = amt(rng, sym)
-                bal = run.balance(acct, kind != 'R', extra).get(sym, 0)
+                bal = run.balance(acct, virt(kind), extra).get(sym, 0)
                 val = target.value - bal
-                p = WPost(acct, kind, None, None, None, target)
+                p = WPost(written, kind, None, None, None, target)
                 assigned[len(posts)] = (sym, val)
-                extra.append((acct, kind != 'R', sym, val, kind != 'V'))
+                extra.append((acct, virt(kind), sym, val, kind != 'V', kind == 'D', (sym, val)))
             else:
                 a = amt(rng, sym)
+                cost = None
                 if sym == 'AAA' and rng.random() < 0.3 and not any(q.lot for q in posts):
                     lot = X.Amt(F(rng.randrange(100, 999), 100), 2, '$')
-                p = WPost(acct, kind, a, None, lot)
+                elif len(syms) > 1 and a.value != 0 and rng.random() < 0.2:
+                    # a cost: the transaction balances on it, the account (and every `= AMOUNT`) counts the amount.  Per
+                    # unit only on a whole quantity (the total then has the decimals of its commodity)
+                    csym = rng.choice([s for s in syms if s != sym])
+                    cost = ('u' if sym == 'AAA' and rng.random() < 0.5 else 't', amt(rng, csym, 1, 3000))
+                p = WPost(written, kind, a, cost, lot)
                 if lot is not None and rng.random() < 0.4:
                     p.lot_fixed = True          # {=PRICE}: once the commodity has lots of both kinds, reports keep the fixated price apart
-                extra.append((acct, kind != 'R', sym, a.value, kind != 'V'))
+                extra.append((acct, virt(kind), sym, a.value, kind != 'V', kind == 'D', p.balancing() if cost else (sym, a.value)))
                 if r < 0.6 and verdict == 'ok':
-                    bal = run.balance(acct, kind != 'R', extra)
+                    bal = run.balance(acct, virt(kind), extra)
                     if rng.random() < 0.12:
                         # bare zero: every commodity of the account must be zero
                         p.assigned = X.Amt(F(0), 0, None)
@@ -131,14 +201,14 @@ def gen_history(rng, auto=False):
                         else:
                             p.assigned = X.Amt(true_val, DEC[asym], asym)
             posts.append(p)
-            if verdict == 'assert':
+            if verdict != 'ok':
                 break
         if auto and verdict == 'ok' and (k < warm or rng.random() < 0.45):
             a = amt(rng, rng.choice(syms))
             pos = rng.randrange(0, len(posts) + 1)
             posts.insert(pos, WPost(AUTO_SRC, 'R', a))
             assigned = {(k if k < pos else k + 1): v for k, v in assigned.items()}
-            extra.append((AUTO_SRC, False, a.sym, a.value, True))
+            extra.append((AUTO_SRC, False, a.sym, a.value, True, False, (a.sym, a.value)))
         # balance the postings that must balance (real and [balanced virtual]) with an elided posting: mostly a real Equity
         # posting, sometimes a [balanced virtual] one on one of the accounts under test - what it receives (one generated
         # posting per commodity) then counts as virtual for every later assertion
@@ -146,25 +216,36 @@ def gen_history(rng, auto=False):
         if any(q.kind != 'V' for q in posts):
             if rng.random() < 0.25:
                 ekind, eacct = 'B', rng.choice(plain if k < warm else accts[:-1])
-            posts.append(WPost(eacct, ekind, None))
-        x = X.Xact(posts, date='2020/%02d/%02d' % (rng.randrange(1, 13), rng.randrange(1, 29)))
+                if deferred and rng.random() < 0.5:
+                    ekind = 'D'         # an elided deferred posting: the postings made for its commodities are deferred too
+            eacct, ewritten = names(eacct)
+            posts.append(WPost(ewritten, ekind, None))
+        x = AXact(posts, date='2020/%02d/%02d' % (rng.randrange(1, 13), rng.randrange(1, 29)))
+        x.stack = tuple(stack) if pre else ()
         xs.append(x)
         exp.append(dict(kind=verdict, assigned=assigned))
         if verdict == 'ok':
-            run.hist.extend(extra)
+            run.hist.extend(e for e in extra if not e[5])
+            run.held.extend(e for e in extra if e[5])
             for q in posts:
                 if q.acct == AUTO_SRC and q.amt is not None:
                     run.hist.append((AUTO_BUDGET, True, q.amt.sym, -q.amt.value, True))
                     run.hist.append((AUTO_POOL, True, q.amt.sym, q.amt.value, True))
             # what the elided posting receives: minus the must-balance postings, per commodity
             tot = {}
-            for (a, v, s, q, mb) in extra:
-                if mb:
+            for e in extra:
+                if e[4]:
+                    s, q = e[6]
+                    s = s.split('~')[0]
                     tot[s] = tot.get(s, 0) + q
             for s, q in tot.items():
                 if q != 0:
-                    run.hist.append((eacct, ekind != 'R', s, -q, True))
-    return xs, exp
+                    (run.held if ekind == 'D' else run.hist).append((eacct, virt(ekind), s, -q, True))
+    return xs, exp, eof
+
+
+def e_kind(e):
+    return e['kind']
 
 
 def declarations():
@@ -173,8 +254,13 @@ def declarations():
     return ''.join('account %s\n' % a for a in accts) + ''.join('commodity %s\n' % c for c in DEC) + '\n'
 
 
-def journal_sx(jid, xs, permissive, auto=False):
-    return lib.sx(['journal', jid, ['permissive', permissive]] + ([AUTO_SX] if auto else []) + [x.sx() for x in xs])
+def journal_sx(jid, xs, permissive, auto=False, eof=None):
+    items = []
+    for i, x in enumerate(xs):
+        if eof is not None and i == eof:
+            items.append(['eof'])       # the file of the first -f option ends here: what the accounts held back reaches them
+        items.append(x.sx())
+    return lib.sx(['journal', jid, ['permissive', permissive]] + ([AUTO_SX] if auto else []) + items)
 
 
 def clean(xs, rejected):
@@ -212,7 +298,8 @@ def run_layout(ctx, name, xs, cut, extra, skip=()):
     return st, out, err, path, texts
 
 
-ERRS = X.ERR_CLASSES + [('Balance assertion off by', 'AssertOff'), ('Cannot strip commodity annotations', 'NullAmt')]
+ERRS = X.ERR_CLASSES + [('Balance assertion off by', 'AssertOff'), ('Cannot strip commodity annotations', 'NullAmt'),
+                        ('Cannot convert a balance with multiple commodities to an amount', 'MultiComm')]
 
 
 def run(ctx, n_override=None):
@@ -222,22 +309,36 @@ def run(ctx, n_override=None):
                 'accounts incl. a sub-account, 1-3 commodities, real, (virtual) and [balanced virtual] postings, an elided amount on a real or a '
                 '[balanced virtual] posting (absorbing up to three commodities), lots, dates deliberately out of file '
                 'order; `= X` on arbitrary postings: true assertions, false ones off by >= 1 display unit, bare-0 assertions, '
-                'assignments; with and without --permissive; in one file, with a stretch of the transactions in an included file, or in two files given by two -f options; non-trivial = the transaction carries an assertion or assignment; '
+                'assignments, bare `= 0` assignments (the account holding zero, one or several commodities); costs (@ on whole quantities, @@) on postings with and without a clause; '
+                'every fourth journal with <deferred> postings (written, elided, carrying a clause), the end of the first -f file where the generator put it; '
+                'every fourth journal with transactions inside `apply account` blocks (one or two deep: short names reaching accounts used outside, and names that mean another account inside); with and without --permissive; in one file, with a stretch of the transactions in an included file, or in two files given by two -f options; non-trivial = the transaction carries an assertion or assignment; '
                 'distinct by rendered text')
     n = n_override or ctx.scale(150, 3000)
     X.ERR_CLASSES[:] = ERRS
     lines, jobs = [], []
     for j in range(n):
         auto = j % 4 == 3
-        xs, exp = gen_history(rng, auto)
+        deferred = j % 4 == 1
+        stack = rng.choice([('Assets',), ('Assets',), ('Assets', 'Bank')]) if j % 4 == 2 else ()
+        xs, exp, eof = gen_history(rng, auto, deferred, stack)
         permissive = rng.random() < 0.25
         cut = None
-        if rng.random() < 0.35 and len(xs) > 2:
+        if deferred:
+            # the end of the first -f file is where the generator (and the oracle's fold) put it; the end of an included
+            # file releases nothing
+            if eof is not None and eof < len(xs):
+                cut = ('two', eof)
+            else:
+                eof = None
+                if rng.random() < 0.4 and len(xs) > 2:
+                    a = rng.randrange(1, len(xs))
+                    cut = (a, rng.randrange(a + 1, len(xs) + 1))
+        elif rng.random() < 0.35 and len(xs) > 2:
             a = rng.randrange(1, len(xs))
             cut = (a, rng.randrange(a + 1, len(xs) + 1)) if rng.random() < 0.7 else ('two', a)
             permissive = rng.random() < 0.45
         jobs.append((j, xs, exp, permissive, cut, auto))
-        lines.append(journal_sx('j%d' % j, xs, permissive, auto))
+        lines.append(journal_sx('j%d' % j, xs, permissive, auto, eof))
     model = X.model_lines_to_map(lib.run_model('C09', lines))
     for j, xs, exp, permissive, cut, auto in jobs:
         jid = 'j%d' % j
@@ -245,11 +346,15 @@ def run(ctx, n_override=None):
         text = AUTO[0] + X.render_journal(xs)
         if auto:
             res.count('automated-rule')
+        if j % 4 == 2:
+            res.count('apply-account-stream')
+        if j % 4 == 1:
+            res.count('deferred-stream' + (':two-f-options' if cut and cut[0] == 'two' else ':included-file' if cut else ':one-file'))
         extra = ['--permissive'] if permissive else []
         # the checking options together: --permissive wins over --strict and --pedantic wherever it stands; alone, --strict
         # and --pedantic leave assertions as they are (every name is declared, so they have nothing else to say)
         PRELUDE[0] = ''
-        if rng.random() < 0.3:
+        if j % 4 != 2 and rng.random() < 0.3:
             PRELUDE[0] = declarations()
             other = rng.choice([['--strict'], ['--pedantic'], ['--strict', '--pedantic']])
             extra = (other + extra) if rng.random() < 0.5 else (extra + other)
@@ -274,6 +379,15 @@ def run(ctx, n_override=None):
             mod = (mk + ' ' + mrest).strip()
             res.count('impl:' + impl.split(' ')[0] + (':' + errs[i] if i in rejected else ''))
             has_clause = any(p.assigned is not None for p in x.posts)
+            if getattr(x, 'stack', ()):
+                res.count('xact:inside-apply-account:%d' % len(x.stack) + (':with-clause' if has_clause else ''))
+            for p in x.posts:
+                if p.kind == 'D':
+                    res.count('posting:deferred' + (':with-clause' if p.assigned is not None else '') + (':elided' if p.amt is None and p.assigned is None else ''))
+                if p.cost is not None:
+                    res.count('posting:cost' + (':with-assertion' if p.assigned is not None else ''))
+                if p.assigned is not None and p.assigned.sym is None and p.amt is None:
+                    res.count('clause:bare-assignment:' + e_kind(exp[i]))
             if has_clause:
                 res.nontrivial.add(x.text(0))
             if mk == 'ORDER-DEPENDENT':
@@ -291,6 +405,9 @@ def run(ctx, n_override=None):
             if not want_reject and i in rejected and not permissive and e['kind'] == 'ok':
                 res.violations.append(dict(key='true-assertion-rejected:' + errs[i], desc='a true balance assertion (or a transaction without one) was rejected: %s' % errs[i],
                                            case=dict(journal=text, xact=i, permissive=permissive, files=texts if cut else None), observed=impl, required='accepted'))
+            if e['kind'] == 'multi' and (i not in rejected or errs[i] != 'MultiComm'):
+                res.violations.append(dict(key='bare-assignment-over-several-commodities-accepted', desc='`= 0` on an amount-less posting of an account holding two commodities: no single amount completes both, the transaction must be refused',
+                                           case=dict(journal=text, xact=i, permissive=permissive, files=texts if cut else None), observed=impl, required='Cannot convert a balance with multiple commodities to an amount'))
             if permissive and i in rejected and errs[i] == 'AssertOff':
                 res.violations.append(dict(key='permissive-assertion-failed', desc='--permissive but an assertion failed',
                                            case=dict(journal=text, xact=i, permissive=True, files=texts if cut else None), observed=impl, required='accepted'))
